@@ -12,7 +12,7 @@
 (* Validation is TOTAL: an event the reference semantics does not allow is   *)
 (* reported (PrintT <<"REJ", json>>) and the model re-synchronises on what   *)
 (* the implementation logged, so the rest of the trace is still checked.     *)
-EXTENDS AsmSem, Json, IOUtils, TLC
+EXTENDS Deviations, Json, IOUtils, TLC
 
 Trace == ndJsonDeserialize(IOEnv.TRACE)
 N == Len(Trace)
@@ -124,7 +124,11 @@ JudgeStmt(c, i, bytes, off, cgb) ==
       V(o) == OpVal(o, env)
       Mk(tags, why) == [id |-> c.id, i |-> i, at |-> "cg", tags |-> tags, why |-> why, sk |-> s.k,
                         op |-> IF s.k \in {"ins", "br", "far", "raw", "data"} THEN s.mn ELSE s.k,
-                        bits |-> bits, obs |-> bytes, psz |-> c.psz[i], cgbits |-> cgb]
+                        bits |-> bits, obs |-> bytes, psz |-> c.psz[i], cgbits |-> cgb, dev |-> ""]
+      \* branches: the exact step of the known finding D_JmpSize (fixed pass-1 estimate, form chosen by distance)
+      IsJmpDev == /\ s.k = "br" /\ (s.tgt.t = "n" \/ s.tgt.nm \in DOMAIN c.sym)
+                  /\ c.psz[i] = GoskJmpEstimateT(s.mn, bits, s.tgt.t = "n")
+                  /\ bytes = GoskBranchBytes(s.mn, c.org + off, IF s.tgt.t = "n" THEN s.tgt.v ELSE c.sym[s.tgt.nm] + s.tgt.add, cgb)
       size == IF Len(bytes) # c.psz[i] THEN {Mk(<<"C03">>, "pass-1 size differs from emitted length")} ELSE {}
   IN
   CASE s.k = "data" ->
@@ -148,7 +152,8 @@ JudgeStmt(c, i, bytes, off, cgb) ==
                        "bytes do not denote the source instruction")} \cup size
               ELSE size \cup (IF MinLen(s, bits, V) > 0 /\ Len(bytes) > MinLen(s, bits, V)
                               THEN {Mk(<<"C18">>, "longer than the shortest valid encoding")} ELSE {})
-    [] s.k \in {"br", "far"} -> size      \* landing checked at the end, when real offsets are known
+    [] s.k = "br" -> IF size # {} /\ IsJmpDev THEN {[r EXCEPT !.dev = "D_JmpSize"] : r \in size} ELSE size
+    [] s.k = "far" -> size               \* landing is checked at the end, when real offsets are known
     [] s.k = "raw" -> {}
     [] OTHER -> {Mk(<<"C05">>, "directive emitted code")}
 
@@ -186,7 +191,11 @@ JudgeEnd(c, e) ==
       RealAddr(nm) == c.org + RealOff(CHOOSE j \in LabIdx(nm) : TRUE)
       Mk(i, tags, why, obs) == [id |-> c.id, i |-> i, at |-> "end", tags |-> tags, why |-> why,
                                 sk |-> IF i > 0 THEN c.stmts[i].k ELSE "", op |-> IF i > 0 /\ c.stmts[i].k \in {"br", "far"} THEN c.stmts[i].mn ELSE "",
-                                bits |-> IF i > 0 THEN c.bitsS[i] ELSE 0, obs |-> obs]
+                                bits |-> IF i > 0 THEN c.bitsS[i] ELSE 0, obs |-> obs, dev |-> ""]
+      JmpDev(j) == LET s == c.stmts[j] IN
+                   /\ (s.tgt.t = "n" \/ s.tgt.nm \in DOMAIN c.sym)
+                   /\ c.psz[j] = GoskJmpEstimateT(s.mn, c.bitsS[j], s.tgt.t = "n")
+                   /\ c.sb[j] = GoskBranchBytes(s.mn, c.org + RealOff(j), IF s.tgt.t = "n" THEN s.tgt.v ELSE c.sym[s.tgt.nm] + s.tgt.add, c.cgbits[j])
       hook == IF "out" \in DOMAIN e /\ e.fmt = "" /\ e.out # Flatten(c.sb)
               THEN {Mk(0, <<"HOOK">>, "ocode chunks do not concatenate to the output file", << >>)} ELSE {}
       cnt == IF e.nstmt # n THEN {Mk(0, <<"SYNC">>, "number of statements differs from the rendered program", <<e.nstmt, n>>)} ELSE {}
@@ -201,10 +210,11 @@ JudgeEnd(c, e) ==
       brs == {j \in 1..n : c.stmts[j].k = "br" /\ j \notin c.dg /\ c.sb[j] # << >>}
       TgtOK(j) == LET t == c.stmts[j].tgt IN t.t = "n" \/ LabIdx(t.nm) # {}
       Tgt(j) == LET t == c.stmts[j].tgt IN IF t.t = "n" THEN t.v ELSE RealAddr(t.nm) + t.add
-      brrej == {Mk(j, IF c.cgbits[j] # c.bitsS[j] /\ c.cgbits[j] \in {16, 32}
+      brrej == {[Mk(j, IF c.cgbits[j] # c.bitsS[j] /\ c.cgbits[j] \in {16, 32}
                          /\ BranchDenotes(c.sb[j], c.stmts[j].mn, c.org + RealOff(j), Tgt(j), c.cgbits[j])
                       THEN <<"C17">> ELSE <<"C04">>,
                    "branch does not land on its target", <<c.sb[j], c.org + RealOff(j), Tgt(j)>>)
+                 EXCEPT !.dev = IF JmpDev(j) THEN "D_JmpSize" ELSE ""]
                 : j \in {x \in brs : TgtOK(x) /\ ~BranchDenotes(c.sb[x], c.stmts[x].mn, c.org + RealOff(x), Tgt(x), c.bitsS[x])}}
       undef == {Mk(j, <<"C07">>, "branch to undefined label assembled silently", c.sb[j]) : j \in {x \in brs : ~TgtOK(x)}}
       fars == {j \in 1..n : c.stmts[j].k = "far" /\ j \notin c.dg /\ c.sb[j] # << >>}
@@ -215,7 +225,9 @@ JudgeEnd(c, e) ==
   IN
   IF e.status # "ok" THEN {}
   ELSE hook \cup cnt \cup
-       (IF e.clean /\ c.dg = {} THEN labrej \cup total \cup brrej \cup farrej \cup undef \cup silent
+       (IF e.clean /\ c.dg = {}
+        THEN (IF \A j \in 1..n : Len(c.sb[j]) = c.psz[j] \/ c.stmts[j].k = "org" THEN labrej \cup total ELSE {})
+             \cup brrej \cup farrej \cup undef \cup silent   \* (size mismatches were reported per statement)
         ELSE {})
 
 T_End ==
